@@ -194,12 +194,12 @@ def run(ses, rep):
     rep.samples.append({"integer_slice_symbols": sorted(sym), "paths": len(paths)})
     for oid, m, kind, k in flagged:
         confirm(rep, oid, m, kind, dict(a=a, b=b, ell=ell, sep=sep, nf=k, sh=sh))
-    more = measured_values(ses, rep) + text_twice(ses, rep, 4 if quick else 5) + paren_transparency(ses, rep)
+    more = measured_values(ses, rep) + text_twice(ses, rep, 4 if quick else 5) + paren_transparency(ses, rep) + comma_comment_relocation(ses, rep)
     seen = {}
     for oid, what, kind, info in more:
         key = (kind, json.dumps(info, sort_keys=True))
         if key not in seen:
-            seen[key] = replay_measure(info) if kind == "measure" else replay_paren(info) if kind == "paren" else replay_text(info)
+            seen[key] = replay_measure(info) if kind == "measure" else replay_paren(info) if kind == "paren" else replay_relocation(info) if kind == "relocation" else replay_text(info)
         v, rec = seen[key]
         if v is None:
             rep.add(oid, "inconclusive", f"{what}: two formatting passes agree on the native build ({rec})")
@@ -279,6 +279,113 @@ def replay_paren(info):
         if rc2 != 0 or out2 != out1:
             return f"{flags}: second pass changes {out1!r} into {out2!r}", {"source": src, "flags": flags, "pass1": out1, "pass2": out2}
     return None, {"tried": len(PAREN_PROGRAMS)}
+
+
+class _Triv:
+    """abstract trivia iterator: which sides of the token it runs over"""
+    def __init__(self, sides):
+        self.sides = frozenset(sides)
+
+
+def comma_comment_relocation(ses, rep, fs="default"):
+    """R  format_punctuated_multiline moves the comments in FRONT of a comma behind it. The test that decides whether a list must be split
+    (punctuated_inline_comments' predicate on the comma token) is evaluated over an abstract comma token - four facts: a single-line /
+    a block comment before / after it - and must still hold after that move: P(comment before the comma) => P(same comment after it).
+    Otherwise pass 1 splits the list and pass 2 joins it again."""
+    flagged = []
+    funcs = ses.mir("lib", fs)
+    f = [g for g in funcs.get("punctuated_inline_comments", []) if g.kind == "fn"]
+    if len(f) != 1:
+        raise Inconclusive("punctuated_inline_comments not found")
+    site = [s_ for sts in f[0].blocks.values() for s_ in sts if s_[0] == "call" and re.search(r"Option::<&TokenReference>::map_or::<bool,", s_[2])]
+    if len(site) != 1:
+        raise Inconclusive("punctuated_inline_comments: the test of the comma token is not an Option::map_or over pair.punctuation()")
+    callee = site[0][2]
+    ex = ses.executor("lib", fs, inline=lambda n, fn: canon(n).split("::")[-1] in ("token_contains_comments", "token_contains_comments_search", "trivia_contains_comments"))
+    ex.inline_closure_calls = True
+    facts = {k: z3.Bool("comma_" + k) for k in ("LS", "LM", "TS", "TM")}
+    tok = ex.fresh_lazy("TokenReference", "comma")
+
+    def side_term(sides, kinds):
+        return z3.Or([facts[s_ + k_] for s_ in sides for k_ in kinds] + [z3.BoolVal(False)])
+
+    def search_kinds(v):
+        v = deref_val(ex, None, v) if not isinstance(v, Agg) else v
+        return {"All": "SM", "Single": "S", "Multiline": "M"}.get(getattr(v, "variant", None))
+
+    def hook(ex_, st, c_, args, dty):
+        c = canon(c_)
+        last = c.split("::<")[0].split("::")[-1]
+        a0 = deref_val(ex_, st, args[0]) if args else None
+        if last in ("leading_trivia", "trailing_trivia") and a0 is tok:
+            return _Triv("L" if last.startswith("leading") else "T")
+        if isinstance(a0, _Triv):
+            if last in ("iter", "into_iter", "by_ref", "cloned", "copied"):
+                return a0
+            if last == "chain" and isinstance(deref_val(ex_, st, args[1]), _Triv):
+                return _Triv(a0.sides | deref_val(ex_, st, args[1]).sides)
+            if last in ("any", "all") and len(args) > 1:
+                t_ = deref_val(ex_, st, args[1])
+                nm = getattr(t_, "name", None) or (re.search(r"\{(trivia_is_\w+)\}", c_) or [None, None])[1]
+                kinds = {"trivia_is_comment": "SM", "trivia_is_singleline_comment": "S", "trivia_is_multiline_comment": "M"}.get((nm or "").split("::")[-1])
+                if kinds and last == "any":
+                    return Sym(side_term(a0.sides, kinds), "bool")
+        if last in ("has_leading_comments", "has_trailing_comments") and a0 is tok and len(args) > 1:
+            k_ = search_kinds(deref_val(ex_, st, args[1]))
+            if k_:
+                return Sym(side_term("L" if "leading" in last else "T", k_), "bool")
+        if last in ("leading_comments", "trailing_comments") and a0 is tok:
+            return _Triv("L" if last.startswith("leading") else "T")
+        if last == "is_empty" and isinstance(a0, _Triv):
+            return Sym(z3.Not(side_term(a0.sides, "SM")), "bool")
+        return NotImplemented
+    ex.hooks = [hook]
+    m_fn = re.search(r"\{(\w+)\}>$", callee)
+    m_cl = re.search(r"(\{closure@[^}]*\})>$", callee)
+    if m_cl:
+        g = [x for n_, l in funcs.items() if "{closure" in n_ for x in l if x.params and m_cl.group(1) in x.params[0][1]]
+        if len(g) != 1:
+            raise Inconclusive("comma predicate closure not found")
+        outs = ex.run(g[0], [RefV(ex.fresh_lazy("closure", "env")) if g[0].params[0][1].startswith("&") else ex.fresh_lazy("closure", "env"), RefV(tok)])
+        rep.fn(g[0])
+    elif m_fn and funcs.get(m_fn.group(1)):
+        g = funcs[m_fn.group(1)][0]
+        outs = ex.run(g, [RefV(tok)])
+        rep.fn(g)
+    else:
+        raise Inconclusive(f"comma predicate {callee[-60:]} not recognised")
+    terms = []
+    for o in outs:
+        if o.kind != "return" or not isinstance(o.value, Sym) or not z3.is_bool(o.value.t):
+            raise Inconclusive("comma predicate: a path does not return a Boolean over the comment facts")
+        terms.append(z3.And(list(o.pc) + [o.value.t]))
+    P = z3.Or(terms)
+    only = lambda k: [facts[x] == z3.BoolVal(x == k) for x in facts]
+    for kind, name in (("S", "single-line"), ("M", "block")):
+        before = z3.substitute(P, *[(facts[x], z3.BoolVal(x == "L" + kind)) for x in facts])
+        after = z3.substitute(P, *[(facts[x], z3.BoolVal(x == "T" + kind)) for x in facts])
+        oid = f"relocation/comma/{name}-comment-before-implies-after"
+        r, m = ses.obligation(oid, [], z3.And(before, z3.Not(after)), "the split decision survives the move of the comment behind the comma")
+        if r == "sat":
+            flagged.append((oid, f"a {name} comment in front of a comma forces the list apart, the same comment behind the comma (where the first pass puts it) does not",
+                            "relocation", {"comment": name}))
+    return flagged
+
+
+RELOCATION_PROGRAMS = ["x = a --[[ first ]], b\n", "local p --[[ first ]], q = 1, 2\n", "return a --[[ first ]], b\n", "x = a -- first\n, b\n", "return a -- first\n, b\n",
+                       "call(a --[[ first ]], b)\n", "local t = { a --[[ first ]], b }\n"]
+
+
+def replay_relocation(info):
+    binp = common.native_build("default")
+    for src in RELOCATION_PROGRAMS:
+        rc1, out1, _ = common.run_stylua(binp, src, [])
+        if rc1 != 0:
+            continue
+        rc2, out2, _ = common.run_stylua(binp, out1, [])
+        if rc2 != 0 or out2 != out1:
+            return f"second pass changes {out1!r} into {out2!r}", {"source": src, "flags": [], "pass1": out1, "pass2": out2}
+    return None, {"tried": len(RELOCATION_PROGRAMS)}
 
 
 def measured_values(ses, rep, fs="full"):
